@@ -633,6 +633,8 @@ func ErrClass(err error) string {
 		return "nil"
 	}
 	s := err.Error()
+	// protobuf-go randomises "proto: " vs "proto:\u00a0" per binary on purpose
+	s = strings.ReplaceAll(s, "\u00a0", " ")
 	s = reQuoted.ReplaceAllString(s, "Q")
 	// Go type names (*pkg.Type) are structural: keep them
 	types := reGoType.FindAllString(s, -1)
